@@ -127,7 +127,7 @@ func dumpRoutes() {
 	base := baseChainLen()
 	fmt.Fprintf(&sb, "/-- handlers gin runs before any group middleware (logger, recovery …) -/\ndef baseChain : Nat := %d\n\n", base)
 	// syntactic facts
-	facts, bare, err := astRouterFacts(filepath.Join(repoRoot(), "internal", "sbi", "server.go"))
+	facts, bare, err := astRouterFacts(filepath.Join(repoRoot(), "internal", "sbi"))
 	if err != nil {
 		fmt.Fprintln(os.Stderr, "ast:", err)
 		os.Exit(1)
@@ -262,21 +262,49 @@ func runtimeRouterFacts(base int) ([]caseFact, int) {
 	return out, bare
 }
 
-// astRouterFacts reads newRouter syntactically.
-func astRouterFacts(file string) ([]caseFact, int, error) {
+// astRouterFacts reads newRouter syntactically.  The function is found by what it is, not by its name: the function of
+// package internal/sbi that returns a *gin.Engine (in whichever file of the package it lives); the route-registering helper
+// (applyRoutes) likewise: any function of the package whose first parameter is a *gin.RouterGroup.  When there is no such
+// function the facts are empty and the caller reads them off the compiled router.
+func astRouterFacts(dir string) ([]caseFact, int, error) {
 	fset := token.NewFileSet()
-	f, err := parser.ParseFile(fset, file, nil, 0)
+	pkgs, err := parser.ParseDir(fset, dir, func(fi os.FileInfo) bool { return !strings.HasSuffix(fi.Name(), "_test.go") }, 0)
 	if err != nil {
 		return nil, 0, err
 	}
+	isPtrTo := func(e ast.Expr, pkg, name string) bool {
+		st, ok := e.(*ast.StarExpr)
+		if !ok {
+			return false
+		}
+		se, ok := st.X.(*ast.SelectorExpr)
+		if !ok {
+			return false
+		}
+		id, ok := se.X.(*ast.Ident)
+		return ok && id.Name == pkg && se.Sel.Name == name
+	}
 	var fn *ast.FuncDecl
-	for _, d := range f.Decls {
-		if x, ok := d.(*ast.FuncDecl); ok && x.Name.Name == "newRouter" {
-			fn = x
+	appliers := map[string]bool{}
+	for _, p := range pkgs {
+		for _, f := range p.Files {
+			for _, d := range f.Decls {
+				x, ok := d.(*ast.FuncDecl)
+				if !ok || x.Body == nil {
+					continue
+				}
+				if x.Type.Results != nil && len(x.Type.Results.List) == 1 && isPtrTo(x.Type.Results.List[0].Type, "gin", "Engine") &&
+					(fn == nil || x.Name.Name == "newRouter") {
+					fn = x
+				}
+				if x.Recv == nil && x.Type.Params != nil && len(x.Type.Params.List) > 0 && isPtrTo(x.Type.Params.List[0].Type, "gin", "RouterGroup") {
+					appliers[x.Name.Name] = true
+				}
+			}
 		}
 	}
 	if fn == nil {
-		return nil, 0, fmt.Errorf("newRouter not found")
+		return nil, 0, nil
 	}
 	// the engine variable: first assignment `router := …`
 	engine := ""
@@ -321,7 +349,7 @@ func astRouterFacts(file string) ([]caseFact, int, error) {
 			if x == engine && regs[m] {
 				bare++
 			}
-			if m == "applyRoutes" && len(c.Args) > 0 {
+			if appliers[m] && x == "" && len(c.Args) > 0 {
 				if id, ok := c.Args[0].(*ast.Ident); ok && id.Name == engine {
 					bare++
 				}
@@ -356,7 +384,7 @@ func astRouterFacts(file string) ([]caseFact, int, error) {
 						return true
 					})
 				}
-				if m == "applyRoutes" && applyPos < 0 {
+				if appliers[m] && x == "" && applyPos < 0 {
 					if c := s.X.(*ast.CallExpr); len(c.Args) > 0 {
 						if id, ok := c.Args[0].(*ast.Ident); ok && id.Name == group {
 							applyPos = i
